@@ -264,7 +264,15 @@ func init() {
 			if an.Stable {
 				res.Verdict = ""
 				res.Inconcl = ""
-				res.Violate("C15", "C15/deadlock/"+strings.Join(an.Blocked, "+"), "calls did not return and the process is in a stable blocked state: %s\nfamily %s n=%v\n%s", an.Summary, c.Str("family", ""), c.N, an.Dump)
+				seen := map[string]bool{}
+				var frames []string
+				for _, b := range an.Blocked {
+					if !seen[b] {
+						seen[b] = true
+						frames = append(frames, b)
+					}
+				}
+				res.Violate("C15", "C15/deadlock/"+strings.Join(frames, "+"), "calls did not return and the process is in a stable blocked state: %s\nfamily %s n=%v\n%s", an.Summary, c.Str("family", ""), c.N, an.Dump)
 			}
 		},
 		MinNonTrivial: map[string]int{"quick": 15, "thorough": 500},
